@@ -15,7 +15,7 @@ from common import run_driver
 RULE = ('real OntologyStore with injected fake release / remote services. (1) sequential histories (all of length <= 2 over the op '
         'alphabet, random ones up to length 6) over {load(type, release|latest) x remote outcome in {ok, unknown release, tags raise, '
         'fetch raises, read raises, write fails after k in {0, 1, len-1} bytes}, load_minimal_hpo/load_hpo convenience forms, clear(type), '
-        'clear(), resolve_store_path(latest)} x {absolute, relative} store dir: after EVERY op the cache files with their bytes, the number '
+        'clear(), resolve_store_path(latest), a foreign file dropped at the top level / inside a type directory} x {absolute, relative} store dir: after EVERY op the cache files with their bytes, the number '
         'of other entries, the fetch log and the result (loaded == loading the remote bytes directly / failed) must equal the Lean '
         'model\'s world; (2) crash points: each load re-run in a forked child that _exit()s at the j-th I/O boundary (audit events open/'
         'mkdir/rename/remove/rmtree/mkstemp, os.stat, fake remote fetch/read, write proxy) for every j: surviving tree must satisfy the '
@@ -292,6 +292,8 @@ def model_ops(ops):
             out.append(['load', ty, None if rel is None else rel_index(ty, rel), mp])
         elif op[0] == 'clear':
             out.append(['clear', op[1]])
+        elif op[0] == 'stray':
+            out.append(['stray', op[1], op[2], [115, 116, 114, 97, 121]])
         else:
             out.append(['latest', op[1]])
     return out
@@ -325,6 +327,13 @@ def run_history(ctx, ops, relative, stream):
                     from hpotk.store import OntologyType
                     store.clear(None if op[1] is None else OntologyType[op[1]])
                     res = 'ok'
+                elif op[0] == 'stray':
+                    # somebody else drops a file below the store dir: at the top level, or inside a type directory
+                    d = abs_dir if op[1] is None else os.path.join(abs_dir, {'HPO': 'HP', 'MAxO': 'MAXO', 'MONDO': 'MONDO'}[op[1]])
+                    os.makedirs(d, exist_ok=True)
+                    with _real_open(os.path.join(d, f'stray-{op[2]}.txt'), 'wb') as fh:
+                        fh.write(b'stray')
+                    res = 'ok'
                 else:
                     from hpotk.store import OntologyType
                     path = store.resolve_store_path(OntologyType[op[1]], None)
@@ -345,7 +354,7 @@ def run_history(ctx, ops, relative, stream):
                     ok = isinstance(res, dict) and res['loaded'] == want
                 else:
                     ok = isinstance(res, str) and res.startswith('failed')
-            elif op[0] == 'clear':
+            elif op[0] in ('clear', 'stray'):
                 ok = res == 'ok'
             else:
                 ok = (mr is None and isinstance(res, str)) or (mr is not None and isinstance(res, dict) and rel_index(op[1], res['latest']) == mr)
@@ -381,7 +390,8 @@ def op_alphabet():
     loads.append(['load', 'HPO', 'v2023-10-09', {}, 'load_minimal_hpo'])
     loads.append(['load', 'HPO', None, {}, 'load_hpo'])
     loads.append(['load', 'MAxO', 'v2023-03-09', {'read': 'fail'}, 'generic'])
-    others = [['clear', 'HPO'], ['clear', 'MAxO'], ['clear', None], ['latest', 'HPO'], ['latest', 'MAxO'], ['latest', 'MONDO']]
+    others = [['clear', 'HPO'], ['clear', 'MAxO'], ['clear', None], ['latest', 'HPO'], ['latest', 'MAxO'], ['latest', 'MONDO'],
+              ['stray', None, 1], ['stray', 'HPO', 2], ['stray', 'MAxO', 3]]
     return loads + others
 
 
@@ -736,10 +746,64 @@ def github_layer(ctx, rng, thorough):
         gh.urlopen = real
 
 
+def configured_store(ctx):
+    """`configure_ontology_store`: the platform default directory ($HOME/.hpo-toolkit, created on demand), an existing directory,
+    a missing directory (ValueError); the store it returns caches and clears like any other"""
+    from hpotk.store import configure_ontology_store, OntologyType
+    home = tempfile.mkdtemp(prefix='verif-c07-home-')
+    old_home = os.environ.get('HOME')
+    os.environ['HOME'] = home
+    try:
+        rel, rem = services({})
+        for how in ('default', 'existing', 'missing'):
+            ctx.case(['configure', how], True, 'configure_ontology_store', sample={'store_dir': how})
+            problem = None
+            try:
+                if how == 'default':
+                    store = configure_ontology_store(ontology_release_service=rel, remote_ontology_service=rem)
+                    want_dir = os.path.join(home, '.hpo-toolkit')
+                elif how == 'existing':
+                    want_dir = os.path.join(home, 'explicit')
+                    os.mkdir(want_dir)
+                    store = configure_ontology_store(store_dir=want_dir, ontology_release_service=rel, remote_ontology_service=rem)
+                else:
+                    try:
+                        configure_ontology_store(store_dir=os.path.join(home, 'no-such-dir'), ontology_release_service=rel, remote_ontology_service=rem)
+                        problem = 'a missing store_dir was accepted'
+                    except ValueError:
+                        pass
+                    continue
+                if os.path.abspath(store.store_dir) != want_dir or not os.path.isdir(want_dir):
+                    problem = f'store_dir {store.store_dir!r} != {want_dir!r} (or it does not exist)'
+                else:
+                    got = do_load(store, 'HPO', None)
+                    cache, other = tree(want_dir)
+                    latest = max(TAGS['HPO'])
+                    if got != payload_sig('HPO', latest) or cache != {('HPO', latest): REMOTE[('HPO', latest)]} or other:
+                        problem = f'load through the configured store: result {got}, cache {sorted(cache)}, other entries {other}'
+                    else:
+                        store.clear()
+                        cache, other = tree(want_dir)
+                        if cache or other:
+                            problem = f'clear() left {sorted(cache)} / {other} entries'
+            except Exception as e:  # noqa
+                problem = f'raises {type(e).__name__}: {e}'
+            finally:
+                if problem:
+                    ctx.violation(f'configure:{how}', {'case': {'kind': 'configure', 'store_dir': how}, 'impl': problem, 'theorem': THEOREM})
+    finally:
+        if old_home is None:
+            os.environ.pop('HOME', None)
+        else:
+            os.environ['HOME'] = old_home
+        shutil.rmtree(home, ignore_errors=True)
+
+
 def run(ctx):
     rng = ctx.rng
     thorough = ctx.tier == 'thorough'
     install()
+    configured_store(ctx)
     github_layer(ctx, rng, thorough)
     alpha = op_alphabet()
     # (1) histories
@@ -774,5 +838,7 @@ def replay(ctx, data):
         crash_points(ctx, c['prior_ops'], c['target'], 'replay')
     elif c['kind'] == 'github':
         github_layer(ctx, ctx.rng, False)
+    elif c['kind'] == 'configure':
+        configured_store(ctx)
     else:
         run_schedule(ctx, c['jobs'], c['schedule'], 'replay')
